@@ -36,6 +36,8 @@ THEOREMS = [
     'Nb.C10.fromHeaderPixG_eq_fromHeaderPix',
     'Nb.C10.copy_fresh_buffer', 'Nb.C10.copy_alias_counterexample',
     'Nb.C10.mem_separation_invariant', 'Nb.C10.mem_hdr_independent', 'Nb.C10.mem_bufs_untouched',
+    'Nb.C10.mem_bufs_untouched_of_no_poke', 'Nb.C10.mem_copy_independent', 'Nb.C10.mem_swapTo_same_is_copy',
+    'Nb.C10.gen_ownership_skeleton_ok',
     'Nb.C10.mem_ctor_faithful', 'Nb.C10.mem_ctor_faithful_plain', 'Nb.C10.mem_fromFile_faithful',
     'Nb.C10.mem_copy_swap_independent', 'Nb.C10.mem_binaryblock', 'Nb.C10.mem_alias_counterexample',
     'Nb.C10.from_header_preserves_zooms', 'Nb.C10.from_header_pixdim_beyond_ndim_counterexample',
@@ -84,7 +86,14 @@ ASSUMPTIONS = [
     'appeared, with their bytes; CPython / NumPy buffer-protocol semantics (which container is writable, views share '
     'memory, BytesIO.read returns a copy) are what the stream validates, not proved; zero-copy file objects whose read() '
     'returns a view at an offset, MGHHeader.from_fileobj and Nifti1Header extensions (copy() shares the extension '
-    'objects) are not modelled',
+    'objects) are not modelled; the opposite direction — the caller viewing HEADER memory: hdr[name] / hdr.structarr '
+    'return live writable NumPy views of _structarr by design — is outside the model (no operation hands out a view of a '
+    'header cell)',
+    'Generated/C10Own.lean: the ownership skeleton (every assignment to an attribute _structarr in the modules of the '
+    'header classes and the kind of its right-hand side, binaryblock = tobytes(), each distinct copy() / as_byteswapped() '
+    '/ from_fileobj() going through the constructor on fresh bytes) is read off the AST of the working tree by '
+    'own_skeleton(); gen_ownership_skeleton_ok proves it is the skeleton Mem.step assumes and the driver runs '
+    'Mem.stepBy on the generated item; the AST classifier (syntactic patterns, no data flow beyond direct names) is trusted',
     'floats are raw bit patterns; the checks use only sign/zero/NaN classes, abs (clears the sign bit, also of '
     'NaNs), the constant 1.0 and the exact dyadic value of vox_offset (FloatFmt.decode, validated against NumPy '
     'on the fdec stream); IEEE arithmetic itself is NumPy',
@@ -125,8 +134,8 @@ RULE = ('every endianness argument handed to the API (Klass(endianness=), Klass(
         'from_header, as_byteswapped(None / same / other order), binaryblock kept and re-used; after every step every '
         'object is inspected; the binaryblock argument of the hdr / chk / pfix / aliases / defects / chkrand streams is '
         'handed over in a random container kind too (60 %) and must still hold its bytes afterwards; ext = NIfTI headers '
-        'with 0-4 extensions: copy, as_byteswapped(same order) and from_header to every Analyze-family class keep the '
-        'extension list (independent list object); fromhdr = conversions between all '
+        'with 0-4 extensions: copy, as_byteswapped() / as_byteswapped(same order) / as_byteswapped(any spelling of the '
+        'other order) and from_header to every Analyze-family class keep the extension list (independent list object); fromhdr = conversions between all '
         'Analyze-family classes; dt/codec/fdec = table and codec spec validation. A case is non-trivial when the '
         'header differs from the class default; distinct by (class, endianness, op, sha1 of bytes).')
 
@@ -256,6 +265,120 @@ def _fmt_of(dt):
     return {'f4': 'fmt32', 'f8': 'fmt64'}.get(dt.base.str[1:], 'fmt32')
 
 
+def own_skeleton():
+    """The ownership skeleton of the header classes, read off the AST of the working tree (see OwnSkel in
+    Model/C10_Mem.lean).  Returns the dict of its items."""
+    import ast, inspect, textwrap
+    ws = importlib.import_module('nibabel.wrapstruct')
+    tree = ast.parse(open(ws.__file__).read())
+    wcls = next(n for n in tree.body if isinstance(n, ast.ClassDef) and n.name == 'WrapStruct')
+    fn = {n.name: n for n in wcls.body if isinstance(n, ast.FunctionDef)}
+    init = fn['__init__']
+    block = init.args.args[1].arg                       # the parameter holding the caller's block
+
+    def is_self(t, attr):
+        return isinstance(t, ast.Attribute) and t.attr == attr and isinstance(t.value, ast.Name) and t.value.id == 'self'
+
+    def is_wrap_call(v):
+        return (isinstance(v, ast.Call) and isinstance(v.func, ast.Attribute) and v.func.attr == 'ndarray' and
+                any(k.arg == 'buffer' and isinstance(k.value, ast.Name) and k.value.id == block for k in v.keywords))
+
+    wraps = {n.targets[0].id for n in ast.walk(init)
+             if isinstance(n, ast.Assign) and len(n.targets) == 1 and isinstance(n.targets[0], ast.Name) and is_wrap_call(n.value)}
+
+    def classify(v):
+        if isinstance(v, ast.IfExp):
+            parts = {classify(v.body), classify(v.orelse)}
+            return 'wrap' if 'wrap' in parts else (parts.pop() if len(parts) == 1 else 'other')
+        if isinstance(v, ast.BoolOp):
+            parts = {classify(x) for x in v.values}
+            return 'wrap' if 'wrap' in parts else 'other'
+        if (isinstance(v, ast.Name) and v.id in wraps) or is_wrap_call(v):
+            return 'wrap'
+        if isinstance(v, ast.Call) and isinstance(v.func, ast.Attribute) and not v.args and not v.keywords \
+                and v.func.attr == 'copy' and isinstance(v.func.value, ast.Name) and v.func.value.id in wraps:
+            return 'copyOfWrap'
+        if isinstance(v, ast.Call) and isinstance(v.func, ast.Attribute) and v.func.attr == 'default_structarr':
+            return 'fresh'
+        return 'other'
+
+    def stores(node):
+        out = []
+        for n in ast.walk(node):
+            tg = n.targets if isinstance(n, ast.Assign) else [n.target] if isinstance(n, (ast.AugAssign, ast.AnnAssign)) else []
+            for t in tg:
+                for x in (t.elts if isinstance(t, (ast.Tuple, ast.List)) else [t]):
+                    if isinstance(x, ast.Attribute) and x.attr == '_structarr':
+                        out.append((n.lineno, n.value))
+        return sorted(out, key=lambda p: p[0])
+
+    ctor = [classify(v) for _, v in stores(init)]
+    K = classes()
+    mods = sorted({c.__module__ for k in K.values() for c in k.__mro__ if c.__module__.startswith('nibabel')})
+    total = sum(len(stores(ast.parse(open(importlib.import_module(m).__file__).read()))) for m in mods)
+    other = total - len(ctor)
+
+    def ret_value(f):
+        rets = [n.value for n in ast.walk(f) if isinstance(n, ast.Return)]
+        return rets
+
+    bbf = fn['binaryblock']
+    rv = ret_value(bbf)
+    bb_ok = (len(rv) == 1 and isinstance(rv[0], ast.Call) and isinstance(rv[0].func, ast.Attribute) and
+             rv[0].func.attr == 'tobytes' and is_self(rv[0].func.value, '_structarr') and not rv[0].args)
+
+    def distinct(name, skip=()):
+        seen, out = set(), []
+        for cname, k in K.items():
+            if cname in skip:
+                continue
+            f = getattr(k, name)
+            f = getattr(f, '__func__', f)
+            if f not in seen:
+                seen.add(f)
+                out.append(ast.parse(textwrap.dedent(inspect.getsource(f))).body[0])
+        return out
+
+    def ctor_call_on(v, first_ok):
+        return (isinstance(v, ast.Call) and (is_self(v.func, '__class__') or (isinstance(v.func, ast.Name) and v.func.id == 'klass'))
+                and v.args and first_ok(v.args[0]))
+
+    def delegates(f, v):
+        """`v` is `super().<f>(…)`, or a name bound exactly once in `f`, to such a call (an override that decorates
+        the object the base method built; an assignment to its `_structarr` would be counted in otherStores)"""
+        def sup(c):
+            return (isinstance(c, ast.Call) and isinstance(c.func, ast.Attribute) and c.func.attr == f.name and
+                    isinstance(c.func.value, ast.Call) and isinstance(c.func.value.func, ast.Name) and
+                    c.func.value.func.id == 'super')
+        if sup(v):
+            return True
+        if isinstance(v, ast.Name):
+            binds = [n.value for n in ast.walk(f) if isinstance(n, ast.Assign) and
+                     any(isinstance(t, ast.Name) and t.id == v.id for t in n.targets)]
+            return len(binds) == 1 and sup(binds[0])
+        return False
+
+    is_bb = lambda a: is_self(a, 'binaryblock')
+    is_tobytes = lambda a: isinstance(a, ast.Call) and isinstance(a.func, ast.Attribute) and a.func.attr == 'tobytes' and not a.args
+    is_self_copy = lambda v: isinstance(v, ast.Call) and is_self(v.func, 'copy') and not v.args and not v.keywords
+    copies = [len(ret_value(f)) == 1 and (ctor_call_on(ret_value(f)[0], is_bb) or delegates(f, ret_value(f)[0]))
+              for f in distinct('copy')]
+    swaps = [bool(ret_value(f)) and all(is_self_copy(v) or ctor_call_on(v, lambda a: is_tobytes(a) or is_bb(a)) or
+                                        delegates(f, v) for v in ret_value(f))
+             for f in distinct('as_byteswapped')]
+
+    def reads_ok(f):
+        rd = {n.targets[0].id for n in ast.walk(f)
+              if isinstance(n, ast.Assign) and len(n.targets) == 1 and isinstance(n.targets[0], ast.Name) and
+              isinstance(n.value, ast.Call) and isinstance(n.value.func, ast.Attribute) and n.value.func.attr == 'read'}
+        calls = [n for n in ast.walk(f) if isinstance(n, ast.Call) and isinstance(n.func, ast.Name) and n.func.id == 'klass']
+        return bool(calls) and all(c.args and isinstance(c.args[0], ast.Name) and c.args[0].id in rd for c in calls)
+
+    reads = [reads_ok(f) for f in distinct('from_fileobj', skip=('mgh',))]
+    return {'ctor': ctor, 'other': other, 'bb': bool(bb_ok), 'copies': [bool(x) for x in copies],
+            'swaps': [bool(x) for x in swaps], 'reads': [bool(x) for x in reads]}
+
+
 def regen():
     m = nb()
     K = classes()
@@ -372,7 +495,23 @@ def regen():
     out.append('def classOf? (name : String) : Option ClsSpec := classes.find? (·.name == name)\n')
     out.append('end Nb.C10.Gen\n')
     write_if_changed(os.path.join(LEAN, 'NibabelModel', 'Generated', 'C10Codes.lean'), '\n'.join(out))
-    return ['Gen.layouts wf (tiling, %d layouts)' % len(lay), 'Gen.declared sizes', 'Gen.layouts names distinct',
+    sk = own_skeleton()
+    lb = lambda xs: '[' + ', '.join('true' if x else 'false' for x in xs) + ']'
+    out = ['import NibabelModel.Model.C10_Mem',
+           '/-! GENERATED by harness/props/c10.py regen() from the AST of the working tree (nibabel/wrapstruct.py and the',
+           '    modules of the header classes): who assigns `_structarr`, and from what — do not edit. -/',
+           'namespace Nb.C10.Gen', '',
+           'def ownSkel : OwnSkel := {',
+           '  ctorStores := [' + ', '.join('.' + x for x in sk['ctor']) + '],',
+           f'  otherStores := {int(sk["other"])},',
+           f'  binaryblockTobytes := {"true" if sk["bb"] else "false"},',
+           f'  copyViaCtor := {lb(sk["copies"])},',
+           f'  swapViaCtor := {lb(sk["swaps"])},',
+           f'  fromFileReads := {lb(sk["reads"])} }}', '',
+           'end Nb.C10.Gen', '']
+    write_if_changed(os.path.join(LEAN, 'NibabelModel', 'Generated', 'C10Own.lean'), '\n'.join(out))
+    return ['Gen.ownSkel ok (ownership skeleton: _structarr stores, binaryblock, copy, as_byteswapped, from_fileobj)',
+            'Gen.layouts wf (tiling, %d layouts)' % len(lay), 'Gen.declared sizes', 'Gen.layouts names distinct',
             'Gen dt code tables consistent', 'Gen.endianAliases consistent', 'Gen.classes consistent (guess spec, offsets constants)']
 
 
@@ -550,7 +689,7 @@ def case_from_data(d):
     if op == 'mem':
         return mk_mem(d['cls'], d['script'], d.get('stream', 'mem'))
     if op == 'ext':
-        return mk_ext(d['cls'], d['e'], bytes.fromhex(d['hex']), d['exts'], d.get('stream', 'ext'))
+        return mk_ext(d['cls'], d['e'], bytes.fromhex(d['hex']), d['exts'], d.get('stream', 'ext'), d.get('to'))
     if op == 'pfix':
         bs = b'' if d['hex'] == '-' else bytes.fromhex(d['hex'])
         return mk_pfix(d['cls'], d['e'], d['glob'], d['lvls'], bs, d.get('stream', 'corpus'), d.get('valid', False),
@@ -999,10 +1138,11 @@ def oracle_mem(case, out):
 NIFTI_CLASSES = ['nifti1', 'nifti1pair', 'nifti2', 'nifti2pair']
 
 
-def mk_ext(cls, e, bs, exts, stream='ext'):
-    """A NIfTI header with a list of extensions [(code, content hex)]: copy(), as_byteswapped(same order),
-    from_header to every Analyze-family class."""
-    data = {'op': 'ext', 'cls': cls, 'e': e, 'hex': bs.hex(), 'exts': [[int(c), h] for c, h in exts], 'stream': stream}
+def mk_ext(cls, e, bs, exts, stream='ext', to=None):
+    """A NIfTI header with a list of extensions [(code, content hex)]: copy(), as_byteswapped (same order, other
+    order, no argument), from_header to every Analyze-family class."""
+    data = {'op': 'ext', 'cls': cls, 'e': e, 'hex': bs.hex(), 'exts': [[int(c), h] for c, h in exts], 'stream': stream,
+            'to': to}           # spelling of the OTHER byte order handed to as_byteswapped
     return Case(None, data, ('ext', cls, e, _sha(bs), tuple((int(c), h) for c, h in exts)) if exts else None, stream)
 
 
@@ -1017,7 +1157,9 @@ def impl_ext(case):
     X = nb()['nifti1'].Nifti1Extension
     src = K(bytes.fromhex(d['hex']), d['e'], check=False,
             extensions=[X(c, bytes.fromhex(h)) for c, h in d['exts']])
-    res = {'copy': src.copy(), 'same': src.as_byteswapped(src.endianness)}
+    other = SWAPPED if src.endianness == NATIVE else NATIVE
+    res = {'copy': src.copy(), 'same': src.as_byteswapped(src.endianness), 'swap': src.as_byteswapped(),
+           'swapto': src.as_byteswapped(d.get('to') or other)}
     from nibabel.spatialimages import HeaderDataError
     for dst in ANALYZE_FAMILY:
         try:
@@ -1037,7 +1179,7 @@ def oracle_ext(case, out):
     if _ext_list(src) != want:
         return f'{d["cls"]}: header constructed with extensions {d["exts"]} reports {_ext_list(src)}'
     for k, h in res.items():
-        nifti_target = k in ('copy', 'same') or k[3:] in NIFTI_CLASSES
+        nifti_target = k in ('copy', 'same', 'swap', 'swapto') or k[3:] in NIFTI_CLASSES
         if nifti_target and _ext_list(h) != want:
             return (f'{d["cls"]} endian {d["e"]}: {k}: the extensions of the source header '
                     f'({[c for c, _ in want]}) became {[c for c, _ in _ext_list(h)]}')
@@ -1050,6 +1192,12 @@ def oracle_ext(case, out):
         return f'{d["cls"]}: emptying the extension list of a copy changed the original (copies are not independent)'
     if src.binaryblock != bytes.fromhex(d['hex']):
         return f'{d["cls"]}: copying / converting a header with extensions changed its bytes'
+    for k in ('swap', 'swapto'):
+        if res[k].endianness == src.endianness or not (res[k] == src):
+            return f'{d["cls"]}: {k}: byte-swapped copy of a header with extensions has the same order / does not compare equal'
+        del res[k].extensions[:]
+        if _ext_list(src) != want:
+            return f'{d["cls"]}: emptying the extension list of the byte-swapped copy changed the original'
     return None
 
 
@@ -1834,7 +1982,7 @@ def cases(rng, tier):
                 bb = build_header(rng, cls, e).binaryblock
                 exts = [(rng.choice([0, 4, 6, 6, 99, 1000, 40]), bytes(rng.getrandbits(8) for _ in range(rng.randrange(0, 20))).hex())
                         for _ in range(j if j < 3 else rng.randrange(0, 5))]
-                out.append(mk_ext(cls, spell(rng, e), bb, exts))
+                out.append(mk_ext(cls, spell(rng, e), bb, exts, to=spell(rng, '>' if e == '<' else '<')))
     # ---- from_header: dimensions that do not fit the target's dim item, negative / odd pixdims
     for cls in ANALYZE_FAMILY:
         for e in '<>':
